@@ -30,11 +30,13 @@ func (interp *Interpreter) FileSet() *token.FileSet {
 
 // Compile parses and compiles a Go code represented as a string.
 func (interp *Interpreter) Compile(src string) (*Program, error) {
+	interp.startRun()
 	return interp.compileSrc(src, "", true)
 }
 
 // CompilePath parses and compiles a Go code located at the given path.
 func (interp *Interpreter) CompilePath(path string) (*Program, error) {
+	interp.startRun()
 	if !isFile(interp.filesystem, path) {
 		_, err := interp.importSrc(mainID, path, NoTest)
 		return nil, err
@@ -71,6 +73,7 @@ func (interp *Interpreter) compileSrc(src, name string, inc bool) (*Program, err
 // WARNING: The node must have been parsed using interp.FileSet(). Results are
 // unpredictable otherwise.
 func (interp *Interpreter) CompileAST(n ast.Node) (*Program, error) {
+	interp.startRun()
 	// Convert AST.
 	pkgName, root, err := interp.ast(n)
 	if err != nil || root == nil {
@@ -138,6 +141,11 @@ func (interp *Interpreter) CompileAST(n ast.Node) (*Program, error) {
 
 // Execute executes compiled Go code.
 func (interp *Interpreter) Execute(p *Program) (res reflect.Value, err error) {
+	interp.startRun()
+	return interp.execute(p)
+}
+
+func (interp *Interpreter) execute(p *Program) (res reflect.Value, err error) {
 	defer func() {
 		r := recover()
 		if r != nil {
@@ -153,7 +161,6 @@ func (interp *Interpreter) Execute(p *Program) (res reflect.Value, err error) {
 	}
 
 	// Init interpreter execution memory frame.
-	interp.frame.setrunid(interp.runid())
 	interp.frame.mutex.Lock()
 	interp.resizeFrame()
 	interp.frame.mutex.Unlock()
@@ -191,10 +198,11 @@ func (interp *Interpreter) ExecuteWithContext(ctx context.Context, p *Program) (
 	interp.cancelChan = !interp.opt.fastChan
 	interp.mutex.Unlock()
 
+	interp.startRun()
 	done := make(chan struct{})
 	go func() {
 		defer close(done)
-		res, err = interp.Execute(p)
+		res, err = interp.execute(p)
 	}()
 
 	select {
